@@ -155,7 +155,9 @@ def run(ctx: Context, col) -> None:
     flat = ("app", "reshape", (RES, K(-1), ("star", ("app", "shape_slice", (RES, K(3), NONE, NONE)))))
     strip_end = ("app", "slice", (flat, NONE, T_mul(K(-1), npad), NONE))
     keep_first = ("app", "slice", (flat, NONE, A["n_states"], NONE))
-    oku = ub in (("ite", cond_pad, strip_end, flat), ("ite", cond_pad, keep_first, flat), keep_first)
+    # rows - n_pad of the flattened rows, written with the row count (the same slice as [:-n_pad], and the whole array when n_pad == 0)
+    keep_count = ("app", "slice", (flat, NONE, T_sub(("app", "shape", (flat, K(0))), npad), NONE))
+    oku = ub in (("ite", cond_pad, strip_end, flat), ("ite", cond_pad, keep_first, flat), keep_first, keep_count, ("ite", cond_pad, keep_count, flat))
     col.add("R18.2", "BatchProcessor.unbatch_results", file, uline, oku,
             "flatten (dev, batch, slot) and strip the last n_pad rows when n_pad > 0" if oku else
             f"unbatch returns {show_norm(ub)[:220]}", text="strip from the end")
